@@ -37,6 +37,17 @@ class Report:
         self.explanation = ""
         self.t0 = time.time()
         self.extra: Dict[str, object] = {}
+        self.gaps: List[str] = []
+
+    def run(self, fn, *args, **kw):
+        """Run one rule function; an unrecognised idiom / vanished anchor inside it is recorded as a gap and does not
+        hide the violations other rules find."""
+        from .model import AnalysisError
+        try:
+            return fn(*args, **kw)
+        except AnalysisError as e:
+            self.gaps.append(f"{getattr(fn, '__name__', 'rule')}: {e}")
+            return None
 
     def rule(self, rid: str, doc: str, min_instances: int = 1):
         self.rule_docs[rid] = doc
@@ -69,6 +80,8 @@ class Report:
         for ob in self.obs.values():
             counts[ob.rule] = counts.get(ob.rule, 0) + 1
         any_violated = any(o.status == "violated" for o in self.obs.values())
+        for g in self.gaps:
+            print(f"ANALYSIS-ERROR property={self.pid}: {g}")
         for rid, mn in self.rule_min.items():
             if counts.get(rid, 0) < mn and not any_violated:
                 raise AnalysisError(
@@ -100,6 +113,9 @@ class Report:
             print(f"VIOLATION property={self.pid} replay={replay}")
         elif os.path.exists(replay):
             os.remove(replay)
+        if self.gaps and not new:
+            # nothing violated, but part of the property could not be decided: never a silent pass
+            raise AnalysisError("; ".join(self.gaps))
         self.write_evidence(len(new), len(listed), counts)
         n = len(self.obs)
         d = sum(1 for o in self.obs.values() if o.status == "discharged")
